@@ -5,6 +5,9 @@
  *        c20_sample exh    <shard> <nshards> [points]  exhaustive small space (thorough tier); points = loop-grid
  *                                                      points per combination in part 0 (default 3)
  *        c20_sample replay <file>                      case lines (other lines ignored)
+ *        c20_sample corpus <maxbytes> <module>...     load real modules from memory; every call a loader makes to
+ *                                                      libxmp_load_sample is intercepted (-Wl,--wrap), recorded as a
+ *                                                      case and passed on to the real function
  * env C20_FLUSH=1: flush after every case line (to name the case a sanitizer abort happened in)
  *
  * Output per case (the case line is also the model driver's input, see lean/Drv/C20.lean):
@@ -23,6 +26,12 @@
 #include "common.h"
 #include "loader.h"
 #include "hio.h"
+
+/* built with -Wl,--wrap=libxmp_load_sample: every reference (the loaders' and ours) goes to the spy below */
+int __real_libxmp_load_sample(struct module_data *, HIO_HANDLE *, int, struct xmp_sample *, const void *);
+static int spy_on;
+static long spy_max_bytes, spy_seen, spy_recorded, spy_unrecorded, spy_nonmem, spy_toolarge, spy_preset, spy_skippath, spy_filehandle;
+static char spy_prefix[24];
 
 static struct module_data fake_m;
 static int do_flush;
@@ -137,7 +146,7 @@ static void run_case(struct tcase *c)
 		m->smpctl = (c->skip & 2) ? XMP_SMPCTL_SKIP : 0;
 	}
 
-	ret = libxmp_load_sample(m, f, c->flags, &s, nbuf);
+	ret = __real_libxmp_load_sample(m, f, c->flags, &s, nbuf);
 
 	if (f)
 		tell = hio_tell(f);
@@ -156,6 +165,130 @@ static void run_case(struct tcase *c)
 	if (f)
 		hio_close(f);
 	free(nbuf);
+}
+
+
+/* ---------------------------------------------------------------- corpus spy */
+
+static int frame_len(int flg);
+
+int __wrap_libxmp_load_sample(struct module_data *m, HIO_HANDLE *f, int flags, struct xmp_sample *xxs, const void *buffer)
+{
+	int len = xxs->len, lps = xxs->lps, lpe = xxs->lpe, flg = xxs->flg, ret, fl, record = spy_on;
+	long pos = -1, remaining = 0, need = 0, take = 0, buflen = 0, tell = -1;
+	unsigned char *mem = NULL;
+	char id[48];
+
+	if (!spy_on)
+		return __real_libxmp_load_sample(m, f, flags, xxs, buffer);
+	spy_seen++;
+	fl = frame_len(flg);
+	if (xxs->data != NULL) {
+		record = 0;
+		spy_preset++;
+	}
+	if (len > 0 && len <= MAX_SAMPLE_SIZE)
+		need = (flags & SAMPLE_FLAG_ADPCM) ? 16 + (((long)len * fl + 1) >> 1) : (long)len * fl;
+	if (f != NULL) {
+		if (HIO_HANDLE_TYPE(f) == HIO_HANDLE_TYPE_CBFILE) {
+			record = 0;
+			spy_nonmem++;
+		} else {
+			if (HIO_HANDLE_TYPE(f) == HIO_HANDLE_TYPE_FILE)
+				spy_filehandle++;
+			pos = hio_tell(f);
+			remaining = hio_size(f) - pos;
+			if (remaining < 0 || pos < 0)
+				record = 0;
+			/* only the first need+8 bytes can matter (C20_truncation_prefix); a longer rest is cut */
+			take = remaining > need + 8 ? need + 8 : remaining;
+			if (len > MAX_SAMPLE_SIZE || (m && (m->smpctl & XMP_SMPCTL_SKIP))) {
+				record = 0;	/* the seek distance would depend on the cut */
+				spy_skippath++;
+			}
+		}
+	}
+	if ((flags & SAMPLE_FLAG_NOLOAD) && len > 0 && len <= MAX_SAMPLE_SIZE && !(flags & SAMPLE_FLAG_ADLIB))
+		buflen = buffer ? (long)len * fl : 0;
+	if (take + buflen > spy_max_bytes) {
+		record = 0;
+		spy_toolarge++;
+	}
+	if (record) {
+		snprintf(id, sizeof(id), "%s_%ld", spy_prefix, spy_seen);
+		printf("case %s %d %d %d %d %d %d %d ", id, flags, len, lps, lpe, flg,
+		       m ? ((m->smpctl & XMP_SMPCTL_SKIP) ? 3 : 1) : 0, f ? 1 : -1);
+		if (f) {
+			fputs("00", stdout);
+			if (take > 0) {
+				/* read ahead through the handle itself (memory or FILE), then seek back */
+				mem = (unsigned char *)malloc(take);
+				if (hio_read(mem, 1, take, f) != (size_t)take) {
+					fprintf(stderr, "spy: short read-ahead\n");
+					exit(3);
+				}
+				hio_seek(f, pos, SEEK_SET);
+				put_hex(stdout, mem, take);
+				free(mem);
+			}
+		} else {
+			fputc('-', stdout);
+		}
+		fputc(' ', stdout);
+		put_hex(stdout, buffer, buflen);
+		fputc('\n', stdout);
+		if (do_flush)
+			fflush(stdout);
+	}
+	ret = __real_libxmp_load_sample(m, f, flags, xxs, buffer);
+	if (record) {
+		if (f)
+			tell = hio_tell(f) - pos + 1;
+		printf("R %s %d %d %d %d %d %ld ", id, ret, xxs->len, xxs->lps, xxs->lpe, xxs->flg, tell);
+		if (ret == 0 && xxs->data != NULL) {
+			int fl2 = frame_len(xxs->flg);
+			put_hex(stdout, xxs->data - 4, 4 + (size_t)xxs->len * fl2 + 4 * fl2);
+		} else {
+			fputs("NULL", stdout);
+		}
+		fputc('\n', stdout);
+		spy_recorded++;
+		ncases_run++;
+	} else {
+		spy_unrecorded++;
+	}
+	return ret;
+}
+
+static int corpus(long maxbytes, int nfiles, char **files)
+{
+	int i;
+	spy_max_bytes = maxbytes;
+	for (i = 0; i < nfiles; i++) {
+		long size = 0;
+		unsigned char *data = read_file(files[i], &size);
+		xmp_context ctx;
+		int r;
+		if (!data || size <= 0) {
+			free(data);
+			continue;
+		}
+		snprintf(spy_prefix, sizeof(spy_prefix), "c%08lx", (unsigned long)(fnv1a(FNV_INIT, files[i], strlen(files[i])) & 0xffffffff));
+		ctx = xmp_create_context();
+		spy_on = 1;
+		spy_seen = 0;
+		r = xmp_load_module_from_memory(ctx, data, size);
+		spy_on = 0;
+		if (r == 0)
+			xmp_release_module(ctx);
+		xmp_free_context(ctx);
+		free(data);
+		printf("file %s ret=%d calls=%ld\n", files[i], r, spy_seen);
+	}
+	fprintf(stderr, "recorded %ld unrecorded %ld\n", spy_recorded, spy_unrecorded);
+	printf("spy recorded=%ld unrecorded=%ld callback_handle=%ld toolarge=%ld preset=%ld skippath=%ld file_handle=%ld\n", spy_recorded,
+	       spy_unrecorded, spy_nonmem, spy_toolarge, spy_preset, spy_skippath, spy_filehandle);
+	return 0;
 }
 
 /* ---------------------------------------------------------------- generators */
@@ -464,6 +597,8 @@ int main(int argc, char **argv)
 	}
 	if (!strcmp(argv[1], "replay"))
 		return replay(argv[2]);
+	if (!strcmp(argv[1], "corpus"))
+		return corpus(atol(argv[2]), argc - 3, argv + 3);
 	if (argc < 4)
 		return 2;
 	if (!strcmp(argv[1], "exh")) {
